@@ -24,9 +24,16 @@ inside a filter).  Hence:
 why this is the whole domain: surrogates are not characters, they only occur spelled `\uD83D` in
 the text that `jsonUnquote` reads).
 
+Tie to the source (T1): section 12 restates round trip and acceptance for the definitions that the
+translator regenerates from jsonpath.go, jsonpath_parser.go (Gen/EscapeGo.lean) and jsonpath.peg
+(Gen/Grammar.lean) on every run; sections 1–11 are about the hand-written models, which section 12
+proves equal to the regenerated ones.
+
 Assumption (checked by T3 on every run, not proved): `jsonUnquote` is what `encoding/json` does.
 -/
 import JPV.Lemmas.Escape
+import JPV.Lemmas.EscapeGo
+import JPV.Lemmas.EscapeGrammar
 import JPV.Spec
 namespace JPV.Props.C16
 open JPV JPV.Lex
@@ -223,6 +230,86 @@ example : Spec.sel ⟨fun _ => none, fun _ => none, fun _ _ => false⟩ (.child 
     (.obj [("a", .num 1), ("a'b", .num 2), ("a\\'b", .num 3)]) = [.num 2] :=
   C16_exact _ _ _ _ _ _ (by simp) (by decide)
 
+/-! ### 12 the same, for the definitions regenerated from /repo (tie T1) -/
+
+/-- The regenerated `unescapeSingleQuotedString` (prefix, loop body, suffix as the translator read
+    them from jsonpath_parser.go, then `json.Unmarshal` into a string) gives back `k` on `EscSingle k`. -/
+theorem C16_gen_single_roundtrip (k : List Char) :
+    jsonUnmarshalQuoted (genSingleJsonInput (escSingle k)) = some k := by
+  rw [gen_unescapeSingle]; exact C16_single_roundtrip k
+
+/-- The regenerated `unescapeDoubleQuotedString` gives back `k` on `EscDouble k`. -/
+theorem C16_gen_double_roundtrip (k : List Char) :
+    jsonUnmarshalQuoted (genDoubleJsonInput (escDouble k)) = some k := by
+  rw [gen_unescapeDouble]; exact C16_double_roundtrip k
+
+/-- `unescape` is: replace every match of the regular expression `\\(.)` by its first submatch —
+    what `unescapeBackslash` models; `_unescapeJSONString` unmarshals into a `string` — what
+    `jsonUnquote` models; and the regenerated loop body treats bytes ≥ 0x80 (UTF-8 bytes of
+    non-ASCII characters) as ordinary bytes — what makes the model on code points faithful. -/
+theorem C16_gen_routines :
+    (Gen.EscapeGo.unescapeRegexSrc = ['\\', '\\', '(', '.', ')'].map Char.toNat ∧ Gen.EscapeGo.unescapeSubmatch = 1) ∧
+    Gen.EscapeGo.jsonTarget = ['s', 't', 'r', 'i', 'n', 'g'].map Char.toNat ∧
+    (∀ flag b, 128 ≤ b → Gen.EscapeGo.singleStep flag b = (if flag then [92, b] else [b], false)) :=
+  ⟨gen_unescape_regex, gen_json_target, gen_singleStep_high⟩
+
+open JPV.Peg in
+/-- The regenerated grammar rule `singleQuotedNodeIdentifier`, run by the PEG interpreter on ANY
+    input that contains `'EscSingle k'` at ANY position, matches exactly that text, captures exactly
+    `EscSingle k` and ends in action 13. -/
+theorem C16_gen_accepted_single (k pre post : List Char) (fuel : Nat) (hf : k.length + 17 ≤ fuel) :
+    run Gen.grammar fuel (ruleBody Gen.grammar "singleQuotedNodeIdentifier")
+        (pre ++ ('\'' :: (escSingle k ++ '\'' :: post))).toArray pre.length
+      = .ok (pre.length + 1 + (escSingle k).length + 1)
+          [.text (pre.length + 1) (pre.length + 1 + (escSingle k).length), .action 13] := by
+  rw [single_rule_body]; exact gen_single_rule_accepts k pre post fuel hf
+
+open JPV.Peg in
+theorem C16_gen_accepted_double (k pre post : List Char) (fuel : Nat) (hf : k.length + 17 ≤ fuel) :
+    run Gen.grammar fuel (ruleBody Gen.grammar "doubleQuotedNodeIdentifier")
+        (pre ++ ('"' :: (escDouble k ++ '"' :: post))).toArray pre.length
+      = .ok (pre.length + 1 + (escDouble k).length + 1)
+          [.text (pre.length + 1) (pre.length + 1 + (escDouble k).length), .action 14] := by
+  rw [double_rule_body]; exact gen_double_rule_accepts k pre post fuel hf
+
+open JPV.Peg in
+/-- The regenerated rule `dotChildIdentifier` matches exactly `EscDot k` (non-empty key without
+    control characters) at any position, if what follows ends a name (`DotStops`: end of input, an
+    unescaped symbol other than a backslash, a control character) and is not `()`. -/
+theorem C16_gen_accepted_dot (k pre post : List Char) (hne : k ≠ []) (h : ∀ c ∈ k, ¬ isControl c)
+    (hpost : DotStops post) (hfn : ['(', ')'].isPrefixOf post = false) (fuel : Nat) (hf : k.length + 17 ≤ fuel) :
+    run Gen.grammar fuel (ruleBody Gen.grammar "dotChildIdentifier") (pre ++ (escDot k ++ post)).toArray pre.length
+      = .ok (pre.length + (escDot k).length)
+          [.text pre.length (pre.length + (escDot k).length), .action 10] := by
+  rw [dot_rule_body]
+  exact gen_dot_rule_accepts k pre post hne (fun c hc => by simpa using h c hc) hpost hfn fuel hf
+
+/-- The three actions hand the captured text to the three routines. -/
+theorem C16_gen_actions :
+    Gen.actions[10]? = some "\n        p.pushChildSingleIdentifier(p.unescape(text))\n    " ∧
+    Gen.actions[13]? = some "\n        p.pushChildSingleIdentifier(p.unescapeSingleQuotedString(text))\n    " ∧
+    Gen.actions[14]? = some "\n        p.pushChildSingleIdentifier(p.unescapeDoubleQuotedString(text))\n    " :=
+  ⟨action10_text, action13_text, action14_text⟩
+
+-- `$.a\.b.c`: the name `a.b` is followed by `.c`
+example : DotStops ['.', 'c'] := Or.inr ⟨'.', ['c'], rfl, by decide, Or.inl (by decide)⟩
+example : DotStops [] := Or.inl rfl
+
+open JPV.Peg in
+-- the hypotheses are satisfiable: `$.a\.b.c` from position 2, `$..['it\'s']` from position 4
+example : run Gen.grammar 20 (ruleBody Gen.grammar "dotChildIdentifier")
+      (['$', '.'] ++ (escDot ['a', '.', 'b'] ++ ['.', 'c'])).toArray 2
+    = .ok (2 + (escDot ['a', '.', 'b']).length) [.text 2 (2 + (escDot ['a', '.', 'b']).length), .action 10] :=
+  C16_gen_accepted_dot ['a', '.', 'b'] ['$', '.'] ['.', 'c'] (by decide) (by decide)
+    (Or.inr ⟨'.', ['c'], rfl, by decide, Or.inl (by decide)⟩) (by decide) 20 (by decide)
+
+open JPV.Peg in
+example : run Gen.grammar 30 (ruleBody Gen.grammar "singleQuotedNodeIdentifier")
+      (['$', '.', '.', '['] ++ ('\'' :: (escSingle ['i', 't', '\'', 's'] ++ '\'' :: [']']))).toArray 4
+    = .ok (4 + 1 + (escSingle ['i', 't', '\'', 's']).length + 1)
+        [.text 5 (4 + 1 + (escSingle ['i', 't', '\'', 's']).length), .action 13] :=
+  C16_gen_accepted_single ['i', 't', '\'', 's'] ['$', '.', '.', '['] [']'] 30 (by decide)
+
 /-! ### String-level corollaries (what the drivers and the harness use) -/
 
 theorem C16_single_roundtripS (k : String) : unescapeSingleS (escSingleS k) = some k := by
@@ -257,3 +344,5 @@ end JPV.Props.C16
 --   C16_spellings_agree C16_quoted_spellings_agree C16_jsonUnquote_plain C16_unescapeSingle_plain
 --   C16_unescapeBackslash_plain C16_jsonUnquote_rejects C16_exact C16_absent
 --   C16_single_roundtripS C16_double_roundtripS C16_dot_roundtripS C16_member_addressable
+--   C16_gen_single_roundtrip C16_gen_double_roundtrip C16_gen_routines
+--   C16_gen_accepted_single C16_gen_accepted_double C16_gen_accepted_dot C16_gen_actions
